@@ -1131,7 +1131,9 @@ func (v *FnView) rejectsWhen(scope ast.Node, pred0 func(Fact) bool, allowed0 fun
 					}
 				}
 			case *ast.CaseClause, *ast.CommClause:
-				extra = true
+				if p != scope {
+					extra = true
+				}
 			}
 		}
 		if !matched || extra {
